@@ -1,9 +1,9 @@
-use std::{
-	collections::HashMap,
-	mem::take,
-	sync::Arc,
-	time::{Duration, Instant},
-};
+#[cfg(not(watchexec_verif))]
+use std::time::Instant;
+use std::{collections::HashMap, mem::take, sync::Arc, time::Duration};
+// under verification the debounce window is measured on tokio's clock, which can be paused
+#[cfg(watchexec_verif)]
+use tokio::time::Instant;
 
 use async_priority_channel as priority;
 use tokio::{sync::mpsc, time::timeout};
@@ -62,6 +62,12 @@ pub async fn worker(
 
 		if let Some(manner) = action.quit {
 			debug!(?manner, "quitting worker");
+			#[cfg(watchexec_verif)]
+			watchexec_supervisor::verif::emit(
+				"quit",
+				usize::from(matches!(manner, QuitManner::Graceful { .. })),
+				jobs.len(),
+			);
 			match manner {
 				QuitManner::Abort => break,
 				QuitManner::Graceful { signal, grace } => {
@@ -107,7 +113,20 @@ pub async fn worker(
 	}
 
 	debug!("action worker finished");
+	#[cfg(watchexec_verif)]
+	watchexec_supervisor::verif::emit("worker_end", 0, 0);
 	Ok(())
+}
+
+/// The id a verification harness gave to a synthetic event (0 if none), for trace points.
+#[cfg(watchexec_verif)]
+fn verif_id(event: &Event) -> usize {
+	event
+		.metadata
+		.get("verif-id")
+		.and_then(|v| v.first())
+		.and_then(|v| v.parse().ok())
+		.unwrap_or(0)
 }
 
 pub async fn throttle_collect(
@@ -154,6 +173,8 @@ pub async fn throttle_collect(
 				Ok(Err(_empty)) => return Ok(None),
 				Ok(Ok((event, priority))) => {
 					trace!(?event, ?priority, "got event");
+					#[cfg(watchexec_verif)]
+					watchexec_supervisor::verif::emit("recv", priority as usize, verif_id(&event));
 
 					if priority == Priority::Urgent {
 						trace!("urgent event, by-passing filters");
